@@ -144,7 +144,12 @@ func c19WellFormed(format string, b []byte, id string, parts string) string {
 		if string(seen) != parts {
 			return fmt.Sprintf("native record has sections %q, configured parts are %q", seen, parts)
 		}
-		if !strings.Contains(string(b), id) && strings.Contains(parts, "A") {
+		// the header (A, which carries the id) and the final boundary (Z) are
+		// mandatory: without them the sections are not balanced
+		if len(seen) == 0 || seen[0] != 'A' || seen[len(seen)-1] != 'Z' {
+			return fmt.Sprintf("native record has sections %q: it must open with the header A and close with the final boundary Z", seen)
+		}
+		if !strings.Contains(string(b), id) {
 			return fmt.Sprintf("native record does not carry transaction id %q", id)
 		}
 	}
